@@ -2,6 +2,7 @@
 import glob, os, sys, json, math, re
 from fractions import Fraction as Fr
 import vcommon as V
+import gridio
 
 PROP = "coq/C15/Properties_C15.v"
 
@@ -404,6 +405,9 @@ def check(run):
             if mo != io:
                 run.mismatch("unit:" + kind, c, io, mo)
     run.sample({"unit_case": cases[-1], "impl": impl[-1]})
+
+    # grid files: writers/readers of the three forms (+ OpenDX header), model vs real code, round-trip oracle
+    gridio.run_io(run, V.rng("C15io"), unit, model, 240 if quick else 6000)
 
     # histogram scenarios through the engine simulator
     d = V.scratch("C15")
